@@ -172,6 +172,16 @@ def run_case(case, res=None):
             if res is not None:
                 res.discarded['population not expressible by key values'] += 1
             return 0, 0
+        # a link that exists only because unset key values of a type without a null (INTEGER 0) happen to match is there
+        # after a save and reload (C01's subject) but is not created by batch_relate from the raw values: set aside
+        sh0, recs0 = popgen.shadow_from_links(case['schema'], case['pop']['rows'], case['pop']['links'])
+        for i, s_, t_ in case['pop']['links']:
+            a = sc.assocs[i]
+            trec = recs0[a['tgt'].upper()][t_]
+            if any(sh0.attr(trec, k) is None for k in a['tgt_keys']):
+                if res is not None:
+                    res.discarded['late: a link rests on unset key values'] += 1
+                return 0, 0
         try:
             m, insts = c01_roundtrip.build_m0_late(case)
         except Exception as e:
